@@ -86,6 +86,10 @@ func TestVerifC07Dump(t *testing.T) {
 			case "Cookie", "Set-Cookie":
 				wire = "session=" + val + "; other=1"
 			}
+			if rng.IntN(5) == 0 {
+				// the same header repeated: an empty (or blank) first occurrence, then the credential
+				fmt.Fprintf(&req, "%s:%s\r\n", variant(h), []string{"", " ", " x"}[rng.IntN(3)])
+			}
 			fmt.Fprintf(&req, "%s: %s\r\n", variant(h), wire)
 		}
 		fmt.Fprintf(&req, "X-Harmless: visible%d\r\nContent-Length: 0\r\n\r\n", i)
